@@ -481,3 +481,23 @@ func VerifH_C17_UniformRekeyed() {
 	vCover("C17-uniform-rekeyed-reached")
 }
 
+
+// RandUniform(prng, v, mask) returns a value of [0, v-1] for every byte stream: candidates equal to v are rejected like
+// the ones above it.  Two candidates, the first at most v (so that the boundary is in the domain), the second below v.
+func VerifH_C17_RandUniformSupport() {
+	for ci, c := range [][2]uint64{{5, 7}, {6, 7}, {97, 127}, {1<<40 + 3, 1<<41 - 1}} {
+		v, mask := c[0], c[1]
+		s := vBytes("u"+string(rune('0'+ci)), 16)
+		vAssume(binary.BigEndian.Uint64(s[0:8])&mask <= v)
+		vAssume(binary.BigEndian.Uint64(s[8:16])&mask < v)
+		got := RandUniform(&vStream{data: s}, v, mask)
+		vAssert(got < v, "RandUniform-result-below-the-bound")
+		first := binary.BigEndian.Uint64(s[0:8]) & mask
+		want := first
+		if first >= v {
+			want = binary.BigEndian.Uint64(s[8:16]) & mask
+		}
+		vAssert(got == want, "RandUniform-returns-the-first-candidate-below-the-bound")
+	}
+	vCover("C17-randuniform-reached")
+}
